@@ -1,24 +1,28 @@
 (** C16 — map arrays behave as insertion-ordered finite maps under every history.
     Property theorems only; every proof is [exact lemma]. *)
 From Coq Require Import List NArith ZArith Bool.
-From UV Require Import Model.Map Proofs.MapBase Proofs.MapProbe Proofs.Map Proofs.MapGrow Proofs.MapRefine Proofs.MapRefuted.
+From UV Require Import Model.Map Proofs.MapBase Proofs.MapProbe Proofs.Map Proofs.MapGrow Proofs.MapRefine Proofs.MapPre.
 Import ListNotations.
 
-(** Refinement, for EVERY hash function, every key equivalence the hash respects (C15) and
-    every history of insert / remove / get / has / length from the empty map - with the
+(** Refinement of the CURRENT code ([fixed = true]), for EVERY hash function, every key
+    equivalence the hash respects (C15: NaN, -0 and byte/float keys included) and every history of insert / remove / get / has / length from the empty map - with the
     table growing as the code grows it: the outputs are those of the association list, the
     key bound to row i is the key of the i-th entry and row i its value ([abs] = [lift], which
     is what un-map returns up to its sort), and len = number of rows = number of entries.
-    Every prefix of a history is a history, so this holds after every step. *)
+    Every prefix of a history is a history, so this holds after every step.
+    [nanlike] is arbitrary: the current code never compares a key with a placeholder cell.
+    Outside the statement (by the shape of the model: a stored key is a [Key] cell): keys one
+    of whose elements is BIT-IDENTICAL to a placeholder value - f64 0x7ff8000000000001 or
+    0x7ff8000000000002 (also as real part of a complex), the characters U+2FFFF or U+2FFFE,
+    anywhere inside a boxed key - which the code cannot tell from an empty/tombstone cell. *)
 Theorem C16_map_refines_alist :
   forall (key val : Type) (keq : key -> key -> bool) (nanlike : key -> bool) (hash : key -> N) (he ht : N),
     (forall k, keq k k = true) ->
     (forall a b, keq a b = keq b a) ->
     (forall a b c, keq a b = true -> keq b c = true -> keq a c = true) ->
     (forall a b, keq a b = true -> hash a = hash b) ->
-    (forall k, nanlike k = false) ->
     forall ops : list (op key val), forallb (proved_op key val) ops = true ->
-      let c := run key val keq nanlike hash he ht (empty_map key val) ops in
+      let c := run key val keq nanlike true hash he ht (empty_map key val) ops in
       let s := srun key val keq [] ops in
       snd c = snd s /\ abs key val (fst c) = lift key val (fst s) /\
       length (snd (fst c)) = length (fst s) /\ len (fst (fst c)) = length (fst s).
@@ -33,9 +37,8 @@ Theorem C16_map_inv_run :
     (forall a b, keq a b = keq b a) ->
     (forall a b c, keq a b = true -> keq b c = true -> keq a c = true) ->
     (forall a b, keq a b = true -> hash a = hash b) ->
-    (forall k, nanlike k = false) ->
     forall ops : list (op key val), forallb (proved_op key val) ops = true ->
-      R key val keq hash (fst (run key val keq nanlike hash he ht (empty_map key val) ops))
+      R key val keq hash (fst (run key val keq nanlike true hash he ht (empty_map key val) ops))
         (fst (srun key val keq [] ops)).
 Proof. exact map_inv_run. Qed.
 
@@ -60,30 +63,40 @@ Theorem C16_insert_impl_spec :
     ins_post key keq m k index s (ins_loop key keq fuel m k index s (off c s d)).
 Proof. exact ins_loop_spec. Qed.
 
-(** the premise [nanlike k = false] is needed: with a NaN key the model of the current code
-    (real hashes) answers `get NaN map [1 2 3] [4 5 6]` with 4 *)
-Theorem C16_nan_key_refuted : exists ops, agrees is_nan ops = false.
-Proof. exact nan_key_refuted. Qed.
-Theorem C16_drop_all_refuted : exists ops, agrees no_nan ops = false.
-Proof. exact drop_all_refuted. Qed.
-Theorem C16_join_overlap_refuted : exists ops, agrees no_nan ops = false.
-Proof. exact join_overlap_refuted. Qed.
-Theorem C16_map_dup_keys_refuted : exists l,
-  abs N N (v_map N N N.eqb real_hash real_he real_ht l) <> lift N N (a_map N N N.eqb l).
-Proof. exact map_dup_keys_refuted. Qed.
+(** records of the four repaired defects: the model of the code before d33ad92 / 1d73a86 /
+    ca07ac6 / 5017b06 ([fixed = false], NaN comparing equal to the placeholder cells) departs
+    from the association list on the former failing histories, the current model agrees *)
+Theorem C16_nan_key_refuted_pre :
+  agrees false h_nan_get = false /\ agrees false h_nan_insert = false /\ agrees false h_nan_remove = false.
+Proof. exact nan_key_refuted_pre. Qed.
+Theorem C16_drop_all_refuted_pre : agrees false h_drop_all = false.
+Proof. exact drop_all_refuted_pre. Qed.
+Theorem C16_join_overlap_refuted_pre : agrees false h_join_overlap = false.
+Proof. exact join_overlap_refuted_pre. Qed.
+Theorem C16_map_dup_keys_refuted_pre :
+  abs N N (v_map N N N.eqb false real_hash real_he real_ht l_dup_keys) <> lift N N (a_map N N N.eqb l_dup_keys).
+Proof. exact map_dup_keys_refuted_pre. Qed.
+Theorem C16_repaired_histories_agree :
+  agrees true h_nan_get = true /\ agrees true h_nan_insert = true /\ agrees true h_nan_remove = true /\
+  agrees true h_drop_all = true /\ agrees true h_join_overlap = true /\
+  abs N N (v_map N N N.eqb true real_hash real_he real_ht l_dup_keys) = lift N N (a_map N N N.eqb l_dup_keys).
+Proof. exact repaired_histories_agree. Qed.
 
-(** non-vacuity: model and association list agree on a history with collisions, re-insertion
-    after removal, growth 0 -> 1 -> 2 -> 4 -> 8 and the row operations *)
+(** non-vacuity: model and association list agree on a history with collisions, a NaN key,
+    re-insertion after removal, growth 0 -> 1 -> 2 -> 4 -> 8, the row operations, a join with
+    three shared keys and a drop of every row *)
 Example C16_nonvacuous :
-  agrees no_nan [OIns 1 4; OIns 2 5; OIns 3 6; ORem 2; OIns 0 9; OIns 2 8; OGet 2; OHas 3; ORem 1; OLen;
-                 OIns 1 1; OUnmap; ORev; ORot 1%Z; OTake 3; ODrop 1; OJoin [(3, 7)]; OUnmap]%N = true.
+  agrees true [OIns 1 4; OIns 2 5; OIns 999 6; ORem 2; OIns 0 9; OIns 2 8; OGet 999; OHas 3; ORem 1; OLen;
+               OIns 1 1; OUnmap; ORev; ORot 1%Z; OTake 3; ODrop 1; OJoin [(3, 7); (999, 8); (0, 2)]; OUnmap;
+               ODrop 5; OUnmap; OIns 3 3; OUnmap]%N = true.
 Proof. exact agrees_example. Qed.
 
 Print Assumptions C16_map_refines_alist.
 Print Assumptions C16_map_inv_run.
 Print Assumptions C16_grow_keeps_bindings.
 Print Assumptions C16_insert_impl_spec.
-Print Assumptions C16_nan_key_refuted.
-Print Assumptions C16_drop_all_refuted.
-Print Assumptions C16_join_overlap_refuted.
-Print Assumptions C16_map_dup_keys_refuted.
+Print Assumptions C16_nan_key_refuted_pre.
+Print Assumptions C16_drop_all_refuted_pre.
+Print Assumptions C16_join_overlap_refuted_pre.
+Print Assumptions C16_map_dup_keys_refuted_pre.
+Print Assumptions C16_repaired_histories_agree.
